@@ -49,6 +49,8 @@ def fmt(c):
 def names_for(rng, n):
     if rng.random() < 0.7: return 'x', ['x%d' % i for i in range(n)]
     pool = ['p', 'pq', 'u', 'u1', 'w', 'wv', 'z', 'zz', 'k', 'y']
+    if rng.random() < 0.35:      # user names that happen to be names of the maths namespace simplify evaluates in (constants and functions)
+        pool = ['e', 'pi', 'size', 'rate', 'cost', 'inf', 'gamma', 'beta', 'var', 'std']
     nm = rng.sample(pool, n)
     return nm, nm
 
